@@ -174,6 +174,18 @@ for _d in CTX:
     ROPS["i:" + _d] = _r_get(_d)
 for _d in CTX:
     ROPS["p:" + _d] = _r_par(_d)
+def _gps_ctx(d):
+    def f(o):
+        # get_parameterized_sql with the caller's context (which carries no parameterizer): a fresh parameter list every time
+        if not callable(getattr(type(o), "get_parameterized_sql", None)):
+            return "n/a"
+        s_, v_ = o.get_parameterized_sql(CTX[d])
+        return (s_, vrepr(v_))
+
+    return _safe(f)
+
+
+ROPS["gpsctx:postgresql"] = _gps_ctx("postgresql")
 ROPS.update({"gps": _safe(_gps), "hash": _safe(_hash), "eq_self": _safe(_eq_self), "eq_other": _safe(_eq_other),
              "fields": _safe(_fields), "tables": _safe(_tables)})
 RNAMES = list(ROPS)
@@ -387,6 +399,16 @@ def run_hist(case, res):
                     if xa != xb:
                         seen = True
                         break
+                    # ... or when the derived object meets the object it was derived from in one expression
+                    try:
+                        xa2 = obs(_meet(f2(o), o))
+                        t2_ = build(key)
+                        xb2 = obs(_meet(f2(t2_), t2_))
+                    except Exception:
+                        continue
+                    if xa2 != xb2:
+                        seen = True
+                        break
             if seen:
                 res.violate("C02|%s|%s|writes|%s" % (_tname(o), opclass(r), ",".join(ch)),
                             "render %s changed the rendered object (attrs %s) observably" % (r, ch), key=key, op=r,
@@ -420,6 +442,17 @@ def run_hist(case, res):
                 run_sched({"key": key, "ops": ops, "bound": 1, "max_exec": 400}, res)
         else:
             res.extra["dyn_sched_skipped_cap"] = res.extra.get("dyn_sched_skipped_cap", 0) + 1
+
+
+def _meet(x, o):
+    """the derived term and the term it was derived from as operands of one criterion (what a memo carried over by the copy
+    breaks: both operands are looked at together, e.g. collected into one set of fields)"""
+    from pypika_tortoise.terms import Term
+    from pypika_tortoise.queries import QueryBuilder, _SetOperation
+
+    if not (isinstance(x, Term) and isinstance(o, Term)) or isinstance(o, (QueryBuilder, _SetOperation)) or isinstance(x, (QueryBuilder, _SetOperation)):
+        raise TypeError("not two plain terms")
+    return (x == 2) & (o == 1)
 
 
 def run_pairs(case, res):
